@@ -128,7 +128,7 @@ theorem C17_plugin_type_key (fl : Flags) (env : Env) (pi : PInfo) (alts : Alts) 
 theorem C17_unknown_key_needs_errorUnused :
     ∃ (env : Env) (s : Schema) (cfg' : Val),
       Inserted "zz".toList (.int 1) [] s (.map []) cfg' ∧
-      (decodeAndValidate ⟨false, false, true, true⟩ env s cfg').rejected = false :=
+      (decodeAndValidate ⟨false, false, true, true, true⟩ env s cfg').rejected = false :=
   ⟨⟨[], []⟩, .struct (.cons ⟨"A".toList, "a".toList, true, false, []⟩ (.scalar .bool (.bool false)) .nil), _,
     .here _ [] [] (by decide), by decide⟩
 
@@ -160,19 +160,21 @@ theorem C17_defaults (fl : Flags) (env : Env) :
 /-- With `ZeroFields` on, an explicit `null` wipes the default (why that flag must stay off). -/
 theorem C17_defaults_needs_zeroFields_off :
     ∃ (env : Env) (s : Schema),
-      (decode ⟨true, true, true, true⟩ env s .null).val.isZero = true ∧ (keep false s).val.isZero = false :=
+      (decode ⟨true, true, true, true, true⟩ env s .null).val.isZero = true ∧ (keep false s).val.isZero = false :=
   ⟨⟨[], []⟩, .scalar (.int 64) (.int 1234), by decide⟩
 
 /-! ## wrongly typed values -/
 
 /-- **Type errors.** A value of the wrong shape is an error, for every target:
-a non-string scalar the kind switch does not convert, and (with `WholeNumberHook` in the chain) a number with a
-fractional part given for an integer / duration field; a string (without placeholder) for a bool / numeric field;
+a non-string scalar the kind switch does not convert, (with `WholeNumberHook` in the chain) a number with a
+fractional part given for an integer / duration field, and (with `NumberRangeHook`) a number the field's type cannot
+hold; a string (without placeholder) for a bool / numeric field;
 anything but a mapping for a struct, anything but a list for a slice, anything but a mapping for a map; a number or
 boolean at a plugin position.  The failed field keeps its default. -/
 theorem C17_type_error (fl : Flags) (env : Env) :
     (∀ k d v, (∀ s, v ≠ .str s) → v ≠ .null →
-      (accepts k v = false ∨ (fl.wholeNumbers = true ∧ intKind k = true ∧ fractional v = true)) →
+      (accepts k v = false ∨ (fl.wholeNumbers = true ∧ intKind k = true ∧ fractional v = true) ∨
+        (fl.numberRange = true ∧ fitsKind k v = false)) →
       decode fl env (.scalar k d) v = R.fail d .type) ∧
     (∀ k d s, k ≠ .dur → k ≠ .str → resolve env s = .plain → decode fl env (.scalar k d) (.str s) = R.fail d .type) ∧
     (∀ fs v, v ≠ .null → (∀ kvs, v ≠ .map kvs) → (decode fl env (.struct fs) v).errs = [.type]) ∧
@@ -185,9 +187,10 @@ theorem C17_type_error (fl : Flags) (env : Env) :
   · intro k d v hs hn ha
     have : decode fl env (.scalar k d) v = decodeScalar fl env k d v := by cases v <;> simp_all [decode]
     rw [this, decodeScalar, decodeScalar_nonstring castTo fl env k d v hs]
-    rcases ha with ha | ⟨h1, h2, h3⟩
+    rcases ha with ha | ⟨h1, h2, h3⟩ | ⟨h1, h2⟩
     · rw [decodeKind_rejects k d v ha]; simp
     · simp [h1, h2, h3]
+    · simp [h1, h2]
   · intro k d s hd hs hp
     have : decode fl env (.scalar k d) (.str s) = decodeScalar fl env k d (.str s) := by simp [decode]
     rw [this, decodeScalar, decodeScalar_plain castTo fl env k d s hd hp]
@@ -206,9 +209,125 @@ theorem C17_type_error (fl : Flags) (env : Env) :
 the hook regenerated from `DefaultHooks()` matters. -/
 theorem C17_type_error_needs_wholeNumbers :
     ∃ (env : Env) (k : Kind) (d : DVal) (x : Dec), intKind k = true ∧ fractional (.float x) = true ∧
-      (decode ⟨true, false, true, false⟩ env (.scalar k d) (.float x)).errs = [] ∧
-      (decode ⟨true, false, true, true⟩ env (.scalar k d) (.float x)).errs = [.type] :=
+      (decode ⟨true, false, true, false, true⟩ env (.scalar k d) (.float x)).errs = [] ∧
+      (decode ⟨true, false, true, true, true⟩ env (.scalar k d) (.float x)).errs = [.type] :=
   ⟨⟨[], []⟩, .int 64, .int 0, ⟨false, 27, 1⟩, by decide, by decide, by decide, by decide⟩
+
+/-- **A number is stored as that number, or refused.** For every numeric kind (every signed and unsigned width,
+time.Duration, float32 / float64), every default and every number `v` a configuration can give (an integer of any size,
+a decimal of any size): if the kind can hold `v` (`Spec.numberDemand`: a whole number within −2^(b−1) … 2^(b−1)−1 for a
+signed width b / a duration (b = 64), within 0 … 2^b−1 for an unsigned one; any integer and any decimal for a float64, a
+decimal of magnitude at most math.MaxFloat32 for a float32) the field holds exactly that number and nothing is reported;
+otherwise — a fractional part, 300 for an int8, 2^63 or 1e19 for an int64 or a duration, 2^64 for a uint64, 1e39 for a
+float32 — the field is an error and keeps its default: never another number. -/
+theorem C17_number_range (env : Env) (k : Kind) (d : DVal) (v : Val) :
+    (∀ w, numberDemand k v = some (some w) → decode repoFlags env (.scalar k d) v = { val := w }) ∧
+    (numberDemand k v = some none → decode repoFlags env (.scalar k d) v = R.fail d .type) := by
+  have hdec : ∀ w : Val, (∀ s, w ≠ .str s) → w ≠ .null →
+      decode repoFlags env (.scalar k d) w =
+        if repoFlags.wholeNumbers && intKind k && fractional w then R.fail d .type
+        else if repoFlags.numberRange && !fitsKind k w then R.fail d .type else decodeKind k d w := by
+    intro w hs hn
+    have : decode repoFlags env (.scalar k d) w = decodeScalar repoFlags env k d w := by cases w <;> simp_all [decode]
+    rw [this, decodeScalar, decodeScalar_nonstring castTo repoFlags env k d w hs]
+  constructor
+  · intro w hw
+    cases v with
+    | int i =>
+      rw [hdec _ (by intro s h; cases h) (by intro h; cases h)]
+      cases k <;> simp [numberDemand, wholeOf] at hw
+      · next bits =>
+        obtain ⟨h1, rfl⟩ := hw
+        simp [repoFlags, intKind, fractional, fitsKind, decodeKind, h1]
+      · next bits =>
+        obtain ⟨⟨h0, h1⟩, rfl⟩ := hw
+        have : ¬ (i < 0) := by omega
+        simp [repoFlags, intKind, fractional, fitsKind, decodeKind, h1, this]
+      · next bits =>
+        subst hw
+        simp [repoFlags, intKind, fractional, fitsKind, decodeKind]
+      · obtain ⟨h1, rfl⟩ := hw
+        simp [repoFlags, intKind, fractional, fitsKind, decodeKind, h1]
+    | float x =>
+      rw [hdec _ (by intro s h; cases h) (by intro h; cases h)]
+      by_cases hwh : x.isWhole = true
+      · cases k <;> simp [numberDemand, wholeOf, hwh] at hw
+        · next bits =>
+          obtain ⟨h1, rfl⟩ := hw
+          simp [repoFlags, intKind, fractional, fitsKind, decodeKind, h1, hwh]
+        · next bits =>
+          obtain ⟨⟨h0, h1⟩, rfl⟩ := hw
+          have hneg : (x.neg && !x.isZero) = false := Dec.trunc_nonneg_not_neg x hwh h0
+          have hneg' : ¬ (x.neg = true ∧ x.isZero = false) := by simpa using hneg
+          simp [repoFlags, intKind, fractional, fitsKind, decodeKind, h1, hwh, hneg']
+        · next bits =>
+          obtain ⟨h1, rfl⟩ := hw
+          have h1' : (bits != 32 || x.absLeNat maxFloat32) = true := by simpa using h1
+          simp [repoFlags, intKind, fractional, fitsKind, decodeKind, h1']
+        · obtain ⟨h1, rfl⟩ := hw
+          simp [repoFlags, intKind, fractional, fitsKind, decodeKind, h1, hwh]
+      · cases k <;> simp [numberDemand, wholeOf, hwh] at hw
+        · next bits =>
+          obtain ⟨h1, rfl⟩ := hw
+          have h1' : (bits != 32 || x.absLeNat maxFloat32) = true := by simpa using h1
+          simp [repoFlags, intKind, fractional, fitsKind, decodeKind, h1']
+    | null => cases k <;> simp [numberDemand, wholeOf] at hw
+    | bool b => cases k <;> simp [numberDemand, wholeOf] at hw
+    | str s => cases k <;> simp [numberDemand, wholeOf] at hw
+    | list xs => cases k <;> simp [numberDemand, wholeOf] at hw
+    | map kvs => cases k <;> simp [numberDemand, wholeOf] at hw
+  · intro hw
+    cases v with
+    | int i =>
+      rw [hdec _ (by intro s h; cases h) (by intro h; cases h)]
+      cases k <;> simp [numberDemand, wholeOf] at hw
+      · next bits => simp [repoFlags, intKind, fractional, fitsKind, hw]
+      · next bits =>
+        by_cases h0 : i < 0
+        · simp [repoFlags, intKind, fractional, fitsKind, decodeKind, h0, R.fail]
+        · have h0' : 0 ≤ i := by omega
+          have := hw h0'
+          simp [repoFlags, intKind, fractional, fitsKind, this, h0]
+      · simp [repoFlags, intKind, fractional, fitsKind, hw]
+    | float x =>
+      rw [hdec _ (by intro s h; cases h) (by intro h; cases h)]
+      by_cases hwh : x.isWhole = true
+      · cases k <;> simp [numberDemand, wholeOf, hwh] at hw
+        · next bits => simp [repoFlags, intKind, fractional, fitsKind, hwh, hw]
+        · next bits =>
+          by_cases hneg : x.neg = true ∧ x.isZero = false
+          · simp [repoFlags, intKind, fractional, fitsKind, decodeKind, hwh, hneg.1, hneg.2, R.fail]
+          · have h0 : 0 ≤ x.trunc := Dec.trunc_nonneg_of_not_neg x hneg
+            have := hw h0
+            simp [repoFlags, intKind, fractional, fitsKind, hwh, this, hneg]
+        · next bits =>
+          obtain ⟨hb, hle⟩ := hw
+          simp [repoFlags, intKind, fractional, fitsKind, hb, hle]
+        · simp [repoFlags, intKind, fractional, fitsKind, hwh, hw]
+      · cases k <;> simp [numberDemand, wholeOf, hwh] at hw
+        · simp [repoFlags, intKind, fractional, hwh]
+        · simp [repoFlags, intKind, fractional, hwh]
+        · next bits =>
+          obtain ⟨hb, hle⟩ := hw
+          simp [repoFlags, intKind, fractional, fitsKind, hb, hle]
+        · simp [repoFlags, intKind, fractional, hwh]
+    | null => cases k <;> simp [numberDemand, wholeOf] at hw
+    | bool b => cases k <;> simp [numberDemand, wholeOf] at hw
+    | str s => cases k <;> simp [numberDemand, wholeOf] at hw
+    | list xs => cases k <;> simp [numberDemand, wholeOf] at hw
+    | map kvs => cases k <;> simp [numberDemand, wholeOf] at hw
+
+/-- Without `NumberRangeHook` such a number is accepted without any report and the field holds something else (Go's
+conversions wrap, saturate or are implementation-specific: the model's `.opaque`): why the hook regenerated from
+`DefaultHooks()` matters.  300 for an int8, 2^63 for an int64, 1e19 for a duration, 256 for a uint8, 1e39 for a float32. -/
+theorem C17_number_range_needs_hook :
+    ∀ kv ∈ [(Kind.int 8, Val.int 300), (Kind.int 64, Val.int 9223372036854775808), (Kind.dur, Val.float ⟨false, 10 ^ 19, 0⟩),
+        (Kind.uint 8, Val.int 256), (Kind.uint 64, Val.float ⟨false, 2 ^ 64, 0⟩), (Kind.float 32, Val.float ⟨false, 10 ^ 39, 0⟩)],
+      (decode ⟨true, false, true, true, false⟩ ⟨[], []⟩ (.scalar kv.1 (.int 7)) kv.2).errs = [] ∧
+      scalarEq (decode ⟨true, false, true, true, false⟩ ⟨[], []⟩ (.scalar kv.1 (.int 7)) kv.2).val (.int 7) = false ∧
+      (decode ⟨true, false, true, true, true⟩ ⟨[], []⟩ (.scalar kv.1 (.int 7)) kv.2).errs = [.type] ∧
+      scalarEq (decode ⟨true, false, true, true, true⟩ ⟨[], []⟩ (.scalar kv.1 (.int 7)) kv.2).val (.int 7) = true := by
+  decide
 
 /-! ## constraints -/
 
@@ -259,7 +378,8 @@ theorem C17_plugin_defaults_validated (fl : Flags) (env : Env) (pi : PInfo) (alt
     (halt : altOf alts name = some (lzy, .struct fs)) :
     ((keep false (.struct fs)).vfail = true → R.failed (decode fl env (.plugin pi alts) (.map m))) ∧
     ((keep false (.struct fs)).vfail = false →
-      decode fl env (.plugin pi alts) (.map m) = { val := if pi.factory then .factory else .plugin }) := by
+      decode fl env (.plugin pi alts) (.map m) =
+        { val := if pi.factory then .factory (keep false (.struct fs)).val else .plugin (keep false (.struct fs)).val }) := by
   have he := decode_struct_empty fl env fs
   constructor
   · intro hv
@@ -273,7 +393,36 @@ theorem C17_plugin_defaults_validated (fl : Flags) (env : Env) (pi : PInfo) (alt
       unfold settle
       simp [he.1, he.2.2.1, hv]
     rw [decode_plugin_map fl env pi alts m name lzy (.struct fs) hte hname halt _ (by rw [hd])]
-    cases lzy <;> simp [hs, he.2.1]
+    cases lzy <;> simp [hs, he.2.1, he.2.2.2]
+
+/-- **What a plugin instance is built from.** At a plugin position whose block names the registered plugin `name` (the
+`type` key anywhere in the block, in any letter case): every instance — the one `plugin.New` builds while the
+configuration is decoded, or each one a factory from `plugin.NewFactory` builds at each of its calls — receives the
+block without its `type` key decoded into the registered default config of THAT plugin, `r.val` with
+`r = decode fl env s (dropType m)`: by `C17_defaults` the given options, the registered default for every option that is
+not given, by `C17_value_at_path` field by field at any depth below it — a function of the block alone, not of any other
+position of the configuration or of an earlier instance.  The instance exists when the block is accepted (eagerly built
+plugins) resp. always (a lazily filled factory reports the block's errors at its calls: `later`). -/
+theorem C17_plugin_instance_config (fl : Flags) (env : Env) (pi : PInfo) (alts : Alts) (m : List (Str × Val))
+    (name : Str) (lzy : Bool) (s : Schema)
+    (hte : typeEntries m = [.str name]) (hname : pi.names.contains name = true)
+    (halt : altOf alts name = some (lzy, s))
+    (hacc : lzy = true ∨ settle (decode fl env s (.map (dropType m))) = []) :
+    instConf (decode fl env (.plugin pi alts) (.map m)).val = some (decode fl env s (.map (dropType m))).val ∧
+    (decode fl env (.plugin pi alts) (.map m)).errs = [] ∧
+    (∀ (q : List Str) (s' : Schema) (c' : Val), FAt q s (.map (dropType m)) s' c' →
+      ∃ conf, instConf (decode fl env (.plugin pi alts) (.map m)).val = some conf ∧
+        lookup q conf = some (decode fl env s' c').val) := by
+  have hd := decode_plugin_map fl env pi alts m name lzy s hte hname halt _ rfl
+  have h1 : instConf (decode fl env (.plugin pi alts) (.map m)).val = some (decode fl env s (.map (dropType m))).val ∧
+      (decode fl env (.plugin pi alts) (.map m)).errs = [] := by
+    rw [hd]
+    rcases hacc with rfl | hs
+    · cases pi.factory <;> simp [instConf]
+    · cases lzy <;> cases pi.factory <;> simp [hs, instConf]
+  refine ⟨h1.1, h1.2, ?_⟩
+  intro q s' c' hq
+  exact ⟨_, h1.1, value_at fl env hq⟩
 
 /-- what each `validate` tag used in the repository demands of the field's value -/
 theorem C17_constraint_tags :
@@ -592,7 +741,7 @@ theorem C17_discard_default (fl : Flags) (env : Env) (pk : List (Str × Val)) :
     · intro f d hk hs
       have := findKey_defaulted pk "discard_overflow".toList (.bool true) habs
       simp only [fieldResult, hs, hk, this, if_true]
-      simp [decode, decodeScalar, decodeScalarWith, decodeKind, intKind]
+      simp [decode, decodeScalar, decodeScalarWith, decodeKind, intKind, fitsKind]
   · intro ⟨e, he, hk⟩
     have hany : (pk.any fun e => e.1 == "discard_overflow".toList) = true := by
       rw [List.any_eq_true]
